@@ -1,0 +1,54 @@
+//go:build verif
+
+// Contracts for package migrator (comment-only; compiled only under the verif tag).
+package migrator
+
+//@ package gorm.io/gorm/migrator
+
+//@ # ---------- C20 (guard structure only) ----------
+//@ # AutoMigrate issues a creating DDL call only for an object that a probe, asked about the same object just
+//@ # before, reported missing; it never drops or renames anything. What the probes and the DDL calls do is the
+//@ # dialect's and the database's business and is NOT decided here.
+//@ ghost tableMissing tableProbedTag tableProbedBox consMissing consProbed idxMissing idxProbed
+//@ event invoke Migrator.HasTable
+//@   in migrator.(Migrator).AutoMigrate
+//@   do tableMissing = ite(result, 0, 1)
+//@   do tableProbedTag = tagof(arg1)
+//@   do tableProbedBox = boxof(arg1)
+//@ event invoke Migrator.HasConstraint
+//@   in migrator.(Migrator).AutoMigrate$1
+//@   do consMissing = ite(result, 0, 1)
+//@   do consProbed = arg2
+//@ event invoke Migrator.HasIndex
+//@   in migrator.(Migrator).AutoMigrate$1
+//@   do idxMissing = ite(result, 0, 1)
+//@   do idxProbed = arg2
+//@ site create-table-only-if-missing
+//@   match invoke Migrator.CreateTable
+//@   in migrator.(Migrator).AutoMigrate
+//@   min-sites 1
+//@   assert probe-reported-no-table: tableMissing == 1 [C20]
+//@   assert same-model-as-probed: len(arg1) == 1 && tagof(arg1[0]) == tableProbedTag && boxof(arg1[0]) == tableProbedBox [C20]
+//@ site add-column-only-if-missing
+//@   match invoke Migrator.AddColumn
+//@   in migrator.(Migrator).AutoMigrate$1
+//@   min-sites 1
+//@   assert no-such-column-found: foundColumn == nil [C20]
+//@   assert the-column-looked-for: arg2 == dbName [C20]
+//@ site create-constraint-only-if-missing
+//@   match invoke Migrator.CreateConstraint
+//@   in migrator.(Migrator).AutoMigrate$1
+//@   min-sites 2
+//@   assert probe-reported-no-constraint: consMissing == 1 [C20]
+//@   assert same-constraint-as-probed: arg2 == consProbed [C20]
+//@ site create-index-only-if-missing
+//@   match invoke Migrator.CreateIndex
+//@   in migrator.(Migrator).AutoMigrate$1
+//@   min-sites 1
+//@   assert probe-reported-no-index: idxMissing == 1 [C20]
+//@   assert same-index-as-probed: arg2 == idxProbed [C20]
+//@ site auto-migrate-never-drops
+//@   match invoke Migrator.DropTable | invoke Migrator.DropColumn | invoke Migrator.DropIndex | invoke Migrator.DropView | invoke Migrator.RenameTable | invoke Migrator.RenameColumn | invoke Migrator.RenameIndex
+//@   in migrator.(Migrator).AutoMigrate migrator.(Migrator).AutoMigrate$1 migrator.(Migrator).MigrateColumn
+//@   min-sites 0
+//@   assert nothing-is-dropped-or-renamed: false [C20]
